@@ -333,13 +333,15 @@ PairClauses(S, j) ==
             >>)
 
 (* C11: closing and reopening changes nothing; clear gives a fresh index *)
-LifeClauses(S, prev, post, st) ==
+LifeClauses(S, prev, post, st, rm, d) ==
+  \* "with the same rules re-supplied": a reopen that forgets a rule (or changes the default) is another request
+  LET faithful == S.op = "Reopen" /\ RamOfRules(S.a.rules) = rm /\ S.a.def = d IN
   FailNames(<<
     <<"C11.blocks", S.obs.lenT % 128 = 0 /\ S.obs.lenL % 16 = 0>>,
     <<"C11.same",   S.op = "Reopen" => (S.obs = prev.obs /\ S.d = <<>>
                                        /\ post.trie = st.trie /\ post.ls = st.ls /\ post.lastId = st.lastId)>>,
     <<"bind.reopen.nowrite", S.op = "Reopen" => S.w = <<>>>>,
-    <<"C11.answers", (S.op = "Reopen" /\ Has(S.q, "ans") /\ Has(prev.q, "ans")) => S.q.ans = prev.q.ans>>,
+    <<"C11.answers", (faithful /\ Has(S.q, "ans") /\ Has(prev.q, "ans")) => S.q.ans = prev.q.ans>>,
     <<"C11.clear",  (S.op \in {"Clear", "Recreate"} /\ Has(S.q, "fresh")) =>
                        (S.q.fresh.rawsame /\ S.q.fresh.obssame /\ S.q.fresh.anssame /\ S.q.fresh.potsame)>>
   >>)
@@ -368,7 +370,7 @@ Next ==
          o0   == IF k = 0 \/ S.reset THEN EmptyObs ELSE Steps[k].obs
          f0   == StepClauses(cur, ram, def, gens, S, post, o0, issued)
          f    == [f0 EXCEPT !.names = @ \o PairClauses(S, k + 1)
-                                        \o (IF k = 0 THEN <<>> ELSE LifeClauses(S, Steps[k], post, cur))]
+                                        \o (IF k = 0 THEN <<>> ELSE LifeClauses(S, Steps[k], post, cur, ram, def))]
      IN /\ bad' = bad \o Tag(k + 1, f.names)
         /\ dead' = f.dead
         /\ cur' = post
